@@ -922,3 +922,37 @@ mod tests {
 			prng_seed, hops, recipient_amount, pay_secret)
 	}
 }
+
+/// Verification hooks (feature `_verif_hooks` only); see `ln::verif_hooks`. Forward-admission
+/// arithmetic of blinded forwards, by value.
+#[cfg(feature = "_verif_hooks")]
+pub mod verif_hooks_fwdadm {
+	use super::*;
+
+	/// `blinded_path::payment::amt_to_forward_msat` for the given relay parameters.
+	pub fn verif_amt_to_forward_msat(
+		inbound_amt_msat: u64, fee_base_msat: u32, fee_proportional_millionths: u32,
+	) -> Option<u64> {
+		let payment_relay =
+			PaymentRelay { cltv_expiry_delta: 0, fee_proportional_millionths, fee_base_msat };
+		blinded_path::payment::amt_to_forward_msat(inbound_amt_msat, &payment_relay)
+	}
+
+	/// `check_blinded_forward` with no hop features set.
+	pub fn verif_check_blinded_forward(
+		inbound_amt_msat: u64, inbound_cltv_expiry: u32, fee_base_msat: u32,
+		fee_proportional_millionths: u32, cltv_expiry_delta: u16, htlc_minimum_msat: u64,
+		max_cltv_expiry: u32,
+	) -> Result<(u64, u32), ()> {
+		let payment_relay =
+			PaymentRelay { cltv_expiry_delta, fee_proportional_millionths, fee_base_msat };
+		let payment_constraints = PaymentConstraints { max_cltv_expiry, htlc_minimum_msat };
+		super::check_blinded_forward(
+			inbound_amt_msat,
+			inbound_cltv_expiry,
+			&payment_relay,
+			&payment_constraints,
+			&BlindedHopFeatures::empty(),
+		)
+	}
+}
